@@ -1,5 +1,6 @@
 """C09 - dynamic linking information is exact, with or without section headers."""
 import io
+import zlib
 import os
 import struct
 
@@ -149,9 +150,34 @@ def canon_reloc(r, relr):
     return (e['r_offset'], e['r_info_sym'], e['r_info_type'], e['r_addend'] if 'r_addend' in e else None, e['r_info'])
 
 
-def observe(dyn, is_segment, ntags, nsyms, sym_queries, iter_syms):
-    """-> {aspect: value | Exc}.  ntags: model number of tags incl. DT_NULL (indices probed with get_tag)."""
+def observe(dyn, is_segment, ntags, nsyms, sym_queries, iter_syms, first_use=0, ctx=None):
+    """-> {aspect: value | Exc}.  ntags: model number of tags incl. DT_NULL (indices probed with get_tag).
+    first_use: what is done to the fresh view object before the fixed sequence of observations (whatever the object remembers of it must not
+    change any answer): 1 = a tag walk given up after one item and kept alive; 2 = a symbol walk given up after one or two items and kept
+    alive (segment views); 3 = the name look-ups first (segment views); 4 = the last tag by index first."""
     o = {}
+    keep_alive = []
+    if first_use:
+        try:
+            if first_use == 1:
+                it = iter(dyn.iter_tags())
+                next(it, None)
+                keep_alive.append(it)
+            elif first_use == 2 and is_segment and iter_syms:
+                it = iter(dyn.iter_symbols())
+                next(it, None)
+                if nsyms % 2:
+                    next(it, None)
+                keep_alive.append(it)
+            elif first_use == 3 and is_segment and iter_syms:
+                for q in sym_queries:
+                    dyn.get_symbol_by_name(q)
+            elif first_use == 4 and ntags:
+                dyn.get_tag(ntags - 1)
+            if ctx is not None:
+                ctx.count('first-use.%d' % first_use)
+        except Exception:  # noqa   (judged by the observations below)
+            pass
     o['iter_tags'] = attempt(lambda: [canon_tag(t) for t in _bounded(dyn.iter_tags(), ntags + 8)])
     o['get_tag'] = [attempt(lambda i=i: canon_tag(dyn.get_tag(i))) for i in range(ntags)]
     o['num_tags'] = attempt(dyn.num_tags)
@@ -643,7 +669,8 @@ def run_img(ctx, case):
     iter_syms = X['count_rule'] not in ('none', 'ld-empty|unrecoverable')
     obs = {}
     for v in sorted(dyn):
-        obs[v] = observe(dyn[v], v.startswith('seg.'), ntags, nsyms, case.get('queries', []), iter_syms)
+        obs[v] = observe(dyn[v], v.startswith('seg.'), ntags, nsyms, case.get('queries', []), iter_syms,
+                         first_use=(zlib.crc32(L['data'][sorted(L['data'])[0]]) + len(v)) % 5, ctx=ctx)
         check_view(F, v, obs[v], X, v.startswith('seg.'))
     views = [v for v in EXPECTED_VIEWS if v in obs]
     if len(views) >= 2:
@@ -853,7 +880,8 @@ def run_corpus(ctx, case):
     dyn = open_views(ctx, case, F, containers, dynsec[0] if have_sections else None)
     obs = {}
     for v in sorted(dyn):
-        obs[v] = observe(dyn[v], v.startswith('seg.'), len(tags), len(syms), queries, X['count_rule'] not in ('none', 'ld-empty|unrecoverable'))
+        obs[v] = observe(dyn[v], v.startswith('seg.'), len(tags), len(syms), queries, X['count_rule'] not in ('none', 'ld-empty|unrecoverable'),
+                         first_use=(len(tags) + len(v)) % 5, ctx=ctx)
         if rel is None:
             obs[v]['relocs'] = {}
         check_view(F, v, obs[v], X, v.startswith('seg.'))
